@@ -21,10 +21,10 @@ print.go / helpers.go byte for byte by the P-model correspondence):
 END TO END (proved, for every value of the model's universe, every user method script,
 every verb, every fuel — `Proofs/U`, `Proofs/S`: the induction of the frame theorem over the 21
 functions of the printer, repeated under each override):
-* `unsafe_operand_enveloped` / `sprint_unsafe_all_enveloped`: printing `Unsafe(x)` adds nothing
+* `unsafe_operand_enveloped` / `sprint_unsafe_all_enveloped` / `sprintf_unsafe_all_enveloped` (`Sprintf("%c", Unsafe(x))` for every lower-case verb `c`): printing `Unsafe(x)` adds nothing
   but line feeds outside envelopes — also when `x` contains safe values, `Safe(…)`,
   redactable strings, SafeFormatters, formatters, errors, panicking methods;
-* `safe_operand_no_envelope` / `sprint_safe_no_marker`: printing `Safe(x)`, for `x` without a
+* `safe_operand_no_envelope` / `sprint_safe_no_marker` / `sprintf_safe_no_marker`: printing `Safe(x)`, for `x` without a
   redactable operand, opens no envelope and leaves every earlier envelope as it was; the
   output of `Sprint(Safe(x))` contains no marker at all.
 NOT proved here: "the characters are those fmt prints for x" — the model writes what the
@@ -111,6 +111,154 @@ theorem sprint_safe_no_marker (env : Env) (he : S.EnvOk env) (v : Val) (hv : S.V
     (h : sprint env [.safeW v] = .ok q) :
     ∀ t ∈ tokenize q.buf.redactableBytes, t.isMarker = false :=
   S.sprint_safe_no_envelope env he v hv defaultFuel q h
+
+/-- The empty buffer in safe mode: what `doPrint`/`doPrintf` make of a fresh printer's buffer. -/
+def emptySafe : Buffer := { buf := [], validUntil := 0, mode := .safeEsc, markerOpen := false }
+
+theorem emptySafe_eq : Buffer.init.setMode .safeEsc = emptySafe := by decide
+
+/-- `Unsafe(x)` as the only thing printed into an empty buffer, under any verb and any flags:
+the finished output has nothing but line feeds outside envelopes. -/
+theorem only_operand_enveloped (env : Env) (he : EnvOk env) (k : Nat) (p1 : PP) (e1 : p1.buf = emptySafe)
+    (ho : p1.override = .no) (v : Val) (hv : ValOk v) (verb : Nat) (q' : PP)
+    (hr : printArg env (k + 1) p1 (.unsafeW v) verb = .ok q') :
+    OnlyLFs (safeText (evT (tokenize q'.buf.redactableBytes))) := by
+  have hp : Pre p1 := by
+    unfold Pre; rw [e1, ← emptySafe_eq]
+    exact ⟨inv_setMode _ _ inv_init, by simp [setMode_mode]⟩
+  have hfin : p1.buf.finalize.buf = [] := by rw [e1]; decide
+  have ⟨i, m, _, vv, oo, l, ol, el⟩ := U.unsafe_operand env he k p1 v verb hp ho
+    (by rw [e1]; decide) (by rw [hfin]; decide) hv q' hr
+  have hm : q'.buf.mode ≠ .raw := by rw [m, e1]; decide
+  have hdec : decide (q'.buf.mode = .unsafeEsc) = false := by rw [m, e1]; decide
+  have hpre := pre_of_full vv
+  have hsuf := suf_of_full vv
+  have hsc : scan (tokenize q'.buf.buf) = some false := by have := i.sc; rwa [hpre, oo] at this
+  have hfT : U.fT q'.buf = l := by rw [el]; unfold U.fT; rw [hfin]; rfl
+  have hl : OnlyLFs (safeText (evT (tokenize q'.buf.buf))) := by
+    change OnlyLFs (U.fT q'.buf); rw [hfT]; exact ol
+  unfold Buffer.redactableBytes
+  rw [finalize_esc_closed _ hm oo, hdec]
+  have hbuf : (q'.buf.escapeToEnd false).buf = escapeBytesAt q'.buf.buf q'.buf.validUntil false false := rfl
+  rw [hbuf, (escapeBytesAt_spec q'.buf.buf q'.buf.validUntil false i.good).1, U.tail_of_onlyLFs _ hsc hl]
+  simp only [Bool.false_eq_true, if_false]
+  change OnlyLFs (safeText (evT (escTok false (tokenize q'.buf.pre) (tokenize q'.buf.suf))))
+  rw [hpre, hsuf]
+  simpa [escTok] using hl
+
+/-- **`Sprintf("%c", Unsafe(x))`, for every lower-case verb `c`** (`%v`, `%s`, `%d`, `%x`, `%q`, …,
+also the bad ones): dropping the envelopes of the output leaves line feeds only. -/
+theorem sprintf_unsafe_all_enveloped (env : Env) (he : EnvOk env) (v : Val) (hv : ValOk v) (c : Byte)
+    (hc : 0x61 ≤ c ∧ c ≤ 0x7A) (q : PP) (h : sprintf env [0x25, c] [.unsafeW v] = .ok q) :
+    ∀ t ∈ dropEnvT (tokenize q.buf.redactableBytes), t = .b LF := by
+  have hne : c ≠ 0x25 ∧ c ≠ 0x23 ∧ c ≠ 0x30 ∧ c ≠ 0x2B ∧ c ≠ 0x2D ∧ c ≠ 0x20 := by
+    have h1 := hc.1
+    refine ⟨?_, ?_, ?_, ?_, ?_, ?_⟩ <;> (intro heq; rw [heq] at h1; exact absurd h1 (by decide))
+  have hpf : parseFlags true {} [c] = ({}, [c]) := by
+    rw [parseFlags]; simp [hne.2.1, hne.2.2.1, hne.2.2.2.1, hne.2.2.2.2.1, hne.2.2.2.2.2]
+  have h0 : doPrintf env defaultFuel newPP [0x25, c] [.unsafeW v] = .ok q := h
+  have e : defaultFuel = 99994 + 6 := rfl
+  unfold sprintf at h
+  rw [e] at h
+  have ho : newPP.override ≠ .ovUnsafe := by decide
+  rw [doPrintf] at h
+  simp only [ho, if_true, ne_eq, not_false_eq_true] at h
+  rw [fmtLoop] at h
+  simp only [List.takeWhile, List.dropWhile, ne_eq, decide_not, decide_true, Bool.not_true, List.isEmpty_nil, if_true,
+    hpf, hc.1, hc.2, and_self, List.length_singleton, Nat.lt_one_iff, true_and] at h
+  simp only [List.getElem?_cons_zero] at h
+  -- the printer handed to printArg: flags set from the directive, buffer = the empty safe buffer
+  generalize hP : (if c = 0x76 then _ else _ : PP) = P at h
+  have eP : P.buf = emptySafe ∧ P.override = .no := by
+    rw [← hP]; split <;> exact ⟨emptySafe_eq, rfl⟩
+  cases hr : printArg env (99994 + 4) P (.unsafeW v) c.toNat with
+  | ok q' =>
+    rw [hr] at h
+    simp only [Res.bind] at h
+    rw [fmtLoop] at h
+    simp only [List.takeWhile, List.dropWhile, List.isEmpty_nil, if_true] at h
+    rw [finishPrintf] at h
+    have h1 := only_operand_enveloped env he (99994 + 3) P eP.1 eP.2 v hv c.toNat q' hr
+    simp only [List.length_singleton, Nat.zero_add, Nat.lt_irrefl, and_false, if_false, Res.ok.injEq] at h
+    have hb : q.buf = q'.buf := by rw [← h]
+    have ⟨ob, _⟩ := doPrintf_out env he defaultFuel newPP pre_newPP [0x25, c] [.unsafeW v]
+      (fun x hx => by simp only [List.mem_singleton] at hx; subst hx; simpa [ValOk] using hv) q h0
+    unfold dropEnvT
+    rw [(dropEnv_eq_safeText _).1 (scanWF_of_scan _ _ _ ob.2), hb]
+    exact h1
+  | panic b pl => rw [hr] at h; simp [Res.bind] at h
+  | fuel => rw [hr] at h; simp [Res.bind] at h
+  | unsupported => rw [hr] at h; simp [Res.bind] at h
+
+/-- `Safe(x)` as the only thing printed into an empty buffer, under any verb and any flags: no marker in the output. -/
+theorem only_operand_no_marker (env : Env) (he : S.EnvOk env) (k : Nat) (p1 : PP) (e1 : p1.buf = emptySafe)
+    (ho : p1.override = .no) (v : Val) (hv : S.ValOk v) (verb : Nat) (q' : PP)
+    (hr : printArg env (k + 1) p1 (.safeW v) verb = .ok q') :
+    ∀ t ∈ tokenize q'.buf.redactableBytes, t.isMarker = false := by
+  have hp : Pre p1 := by
+    unfold Pre; rw [e1, ← emptySafe_eq]
+    exact ⟨inv_setMode _ _ inv_init, by simp [setMode_mode]⟩
+  have ⟨i, m, _, hpre⟩ := S.safe_operand env he k p1 v verb hp ho (by rw [e1]; rfl) hv q' hr
+  have hpre0 : q'.buf.pre = [] := by rw [hpre, e1]; rfl
+  have hm : q'.buf.mode ≠ .raw := by rw [m]; decide
+  have hdec : decide (q'.buf.mode = .unsafeEsc) = false := by rw [m]; decide
+  have oo : q'.buf.markerOpen = false := by
+    cases ho : q'.buf.markerOpen with
+    | false => rfl
+    | true => have := i.openMode ho; rw [m] at this; cases this
+  unfold Buffer.redactableBytes
+  rw [finalize_esc_closed _ hm oo, hdec]
+  have hbuf : (q'.buf.escapeToEnd false).buf = escapeBytesAt q'.buf.buf q'.buf.validUntil false false := rfl
+  rw [hbuf, (escapeBytesAt_spec q'.buf.buf q'.buf.validUntil false i.good).1]
+  change ∀ t ∈ (if tailBad q'.buf.buf = true then escTok false (tokenize q'.buf.pre) (tokenize q'.buf.suf) ++ [.b 0x3F]
+    else escTok false (tokenize q'.buf.pre) (tokenize q'.buf.suf)), t.isMarker = false
+  rw [hpre0, escTok_false_eq]
+  have hE := escT_no_marker (tokenize q'.buf.suf)
+  intro t ht
+  split at ht
+  · simp only [tokenize_nil, List.nil_append, List.mem_append, List.mem_singleton] at ht
+    rcases ht with ht | rfl
+    · exact hE t ht
+    · rfl
+  · simp only [tokenize_nil, List.nil_append] at ht
+    exact hE t ht
+
+/-- **`Sprintf("%c", Safe(x))`, for every lower-case verb `c`** (`x` without a redactable operand): no marker in the output. -/
+theorem sprintf_safe_no_marker (env : Env) (he : S.EnvOk env) (v : Val) (hv : S.ValOk v) (c : Byte)
+    (hc : 0x61 ≤ c ∧ c ≤ 0x7A) (q : PP) (h : sprintf env [0x25, c] [.safeW v] = .ok q) :
+    ∀ t ∈ tokenize q.buf.redactableBytes, t.isMarker = false := by
+  have hne : c ≠ 0x25 ∧ c ≠ 0x23 ∧ c ≠ 0x30 ∧ c ≠ 0x2B ∧ c ≠ 0x2D ∧ c ≠ 0x20 := by
+    have h1 := hc.1
+    refine ⟨?_, ?_, ?_, ?_, ?_, ?_⟩ <;> (intro heq; rw [heq] at h1; exact absurd h1 (by decide))
+  have hpf : parseFlags true {} [c] = ({}, [c]) := by
+    rw [parseFlags]; simp [hne.2.1, hne.2.2.1, hne.2.2.2.1, hne.2.2.2.2.1, hne.2.2.2.2.2]
+  have e : defaultFuel = 99994 + 6 := rfl
+  unfold sprintf at h
+  rw [e] at h
+  have ho : newPP.override ≠ .ovUnsafe := by decide
+  rw [doPrintf] at h
+  simp only [ho, if_true, ne_eq, not_false_eq_true] at h
+  rw [fmtLoop] at h
+  simp only [List.takeWhile, List.dropWhile, ne_eq, decide_not, decide_true, Bool.not_true, List.isEmpty_nil, if_true,
+    hpf, hc.1, hc.2, and_self, List.length_singleton, Nat.lt_one_iff] at h
+  simp only [List.getElem?_cons_zero] at h
+  generalize hP : (if c = 0x76 then _ else _ : PP) = P at h
+  have eP : P.buf = emptySafe ∧ P.override = .no := by
+    rw [← hP]; split <;> exact ⟨emptySafe_eq, rfl⟩
+  cases hr : printArg env (99994 + 4) P (.safeW v) c.toNat with
+  | ok q' =>
+    rw [hr] at h
+    simp only [Res.bind] at h
+    rw [fmtLoop] at h
+    simp only [List.takeWhile, List.dropWhile, List.isEmpty_nil, if_true] at h
+    rw [finishPrintf] at h
+    have h1 := only_operand_no_marker env he (99994 + 3) P eP.1 eP.2 v hv c.toNat q' hr
+    simp only [List.length_singleton, Nat.zero_add, Nat.lt_irrefl, and_false, if_false, Res.ok.injEq] at h
+    have hb : q.buf = q'.buf := by rw [← h]
+    rw [hb]; exact h1
+  | panic b pl => rw [hr] at h; simp [Res.bind] at h
+  | fuel => rw [hr] at h; simp [Res.bind] at h
+  | unsupported => rw [hr] at h; simp [Res.bind] at h
 
 /-! Premises satisfiable: a `Safe(string)` inside `Unsafe(…)`, and an `Unsafe(Safe(string))` inside `Safe(…)`.
 (The model prints `Unsafe(Safe("a\nb"))` as `‹a›\n‹b›` and `Safe(Unsafe(Safe("a\nb")))` as `a\nb`: `#eval` in the driver.) -/
